@@ -92,6 +92,7 @@ func (lb *LoadBalancer) WaitUntilHealthy(timeout time.Duration) error {
 }
 
 func (lb *LoadBalancer) MarkAllHealthy() {
+	verifPoint("lb.mark-all-healthy", lb)
 	for _, target := range lb.Targets() {
 		target.updateState(TargetStateHealthy)
 	}
